@@ -8,6 +8,7 @@ import (
 	"verifharness/abs"
 
 	"github.com/fiorix/go-diameter/v4/diam"
+	"github.com/fiorix/go-diameter/v4/diam/datatype"
 	"github.com/fiorix/go-diameter/v4/diam/dict"
 )
 
@@ -70,6 +71,15 @@ func runAnswer(id int, c *ansCase) ansLine {
 	// a request received from a peer carries whatever identifiers the peer chose, zero included
 	req.Header.HopByHopID = abs.U32(c.Req.HbH)
 	req.Header.EndToEndID = abs.U32(c.Req.E2E)
+	if id%5 == 0 && c.RC != 0 {
+		// the application prepared an answer with this result code earlier and then changed its mind: it edited the
+		// Result-Code AVP of THAT answer in place. Answers built afterwards are new messages.
+		pre := req.Answer(uint32(c.RC))
+		if len(pre.AVP) > 0 {
+			pre.AVP[0].Data = datatype.Unsigned32(5012)
+			pre.AVP[0].Flags = 0
+		}
+	}
 	ans := req.Answer(uint32(c.RC))
 	return ansLine{Ev: "answer", ID: id, Via: "api", Req: c.Req, RC: c.RC, Stream: streamNo(req.MessageStream()), Ans: obsAnswer(ans)}
 }
